@@ -258,6 +258,8 @@ def sym_getitem(a, i):
         if r == 'neg':
             return a[i.__index__()]
         return a[r]
+    if isinstance(i, SInt) and isinstance(a, dict):
+        return a[i.__index__()]
     if isinstance(i, SInt) and isinstance(a, (str, bytes)):
         return a[i.__index__()]
     if isinstance(i, SBool) and isinstance(a, (list, tuple)):
